@@ -47,11 +47,30 @@ def shred(rows, row_opt, elem_opt):
     return rep, de, vals
 
 
-STRUCT_NULL = "<struct null>"       # row marker: the struct group that holds the LIST / MAP group is null in this row
+STRUCT_NULL = "<struct null>"       # row marker: an ancestor struct group of the LIST / MAP group is null in this row
+# "<struct null>" = the outermost optional ancestor is null (level 0); "<struct null k>" = the first k optional
+# ancestors are there and the next one is null (level k)
+
+
+def is_struct_null(r):
+    return isinstance(r, str) and r.startswith("<struct null")
+
+
+def struct_null_level(r):
+    return 0 if r == STRUCT_NULL else int(r[len("<struct null "):-1])
+
+
+def col_structs(col):
+    """ancestor groups of the LIST / MAP group, outermost first: [{"name", "opt"[, "rep"]}]"""
+    if col.get("structs"):
+        return list(col["structs"])
+    return [col["struct"]] if col.get("struct") else []
 
 
 def struct_off(leaf):
-    """number of optional struct ancestors of the LIST/MAP group (0 or 1 here)"""
+    """number of non-required ancestor groups of the LIST/MAP group"""
+    if leaf.get("struct_opts") is not None:
+        return sum(1 for o in leaf["struct_opts"] if o)
     return 1 if leaf.get("struct_opt") else 0
 
 
@@ -60,18 +79,19 @@ def max_def_leaf(leaf):
 
 
 def shred_leaf(lrows, leaf):
-    """Dremel shredding of a LIST / MAP leaf that may sit below one struct group
+    """Dremel shredding of a LIST / MAP leaf that may sit below struct groups
     (optional group s { <LIST or MAP group> }): every level of the one-level shape moves up by the number of
-    optional ancestors; a null struct is level 0."""
+    optional ancestors; a null ancestor is the level of the optional ancestors defined above it."""
     off = struct_off(leaf)
+    cont = leaf.get("max_rep", 1)          # repetition level of a continuation entry (2 below a repeated ancestor)
     rep, de, vals = [], [], []
     for r in lrows:
-        if isinstance(r, str) and r == STRUCT_NULL:
-            assert leaf.get("struct_opt")
-            rep.append(0), de.append(0)
+        if is_struct_null(r):
+            assert struct_null_level(r) < off
+            rep.append(0), de.append(struct_null_level(r))
         else:
             r1, d1, v1 = shred([r], leaf["row_opt"], leaf["elem_opt"])
-            rep += r1
+            rep += [x * cont for x in r1]
             de += [d + off for d in d1]
             vals += v1
     return rep, de, vals
@@ -105,34 +125,32 @@ def _bitpack(vals, width):
     return acc.to_bytes(len(vals) * width // 8, "little")
 
 
-def hybrid(vals, width, style="mixed"):
-    """RLE / bit-packed hybrid (Encodings.md): a sequence of runs, each
-       rle-run        = varint(count << 1)            value in ceil(width/8) bytes LE
-       bit-packed-run = varint((groups << 1) | 1)     groups*8 values bit-packed LSB first
-    style: 'rle' (one rle run per maximal run of equal values), 'bp' (one bit-packed run, padded
-    with zeros to a multiple of 8), 'mixed' (rle for runs >= 8, bit-packed groups otherwise;
-    a bit-packed run that is not the last one holds a multiple of 8 real values)."""
+LEVEL_LOG = None        # when a list: every hybrid stream written is logged as (width, runs, bytes) for the cross-check
+                        # against the proved Coq spec encoder Codec/Hybrid.v hyb_enc (pqref command hyb_enc)
+
+
+def hybrid_runs(vals, width, style="mixed"):
+    """RLE / bit-packed hybrid (Encodings.md) as a list of runs  ["rle", count, value] | ["bp", [values]]
+    (a bit-packed run is padded with zeros to a multiple of 8 values when serialised).
+    style: 'rle' (one rle run per maximal run of equal values), 'bp' (one bit-packed run), 'mixed' (rle for runs >= 8,
+    bit-packed groups otherwise; a bit-packed run that is not the last one holds a multiple of 8 real values)."""
     n = len(vals)
-    out = bytearray()
-    vb = (width + 7) // 8
     if n == 0:
-        return b""
+        return []
     if width == 0:
-        return uleb(n << 1)             # run of n zeros, zero value bytes
+        return [["rle", n, 0]]          # run of n zeros, zero value bytes
     if style == "bp":
-        g = (n + 7) // 8
-        out += uleb((g << 1) | 1) + _bitpack(list(vals) + [0] * (g * 8 - n), width)
-        return bytes(out)
+        return [["bp", list(vals)]]
+    runs = []
     if style == "rle":
         i = 0
         while i < n:
             j = i
             while j < n and vals[j] == vals[i]:
                 j += 1
-            out += uleb((j - i) << 1) + int(vals[i]).to_bytes(vb, "little")
+            runs.append(["rle", j - i, int(vals[i])])
             i = j
-        return bytes(out)
-    # mixed
+        return runs
     i = 0
     pend = []
     while i < n:
@@ -142,18 +160,39 @@ def hybrid(vals, width, style="mixed"):
         run = j - i
         if run >= 8 and len(pend) % 8 == 0:
             if pend:
-                out += uleb(((len(pend) // 8) << 1) | 1) + _bitpack(pend, width)
+                runs.append(["bp", pend])
                 pend = []
-            out += uleb(run << 1) + int(vals[i]).to_bytes(vb, "little")
+            runs.append(["rle", run, int(vals[i])])
             i = j
         else:
             take = min(run, 8 - len(pend) % 8) if run >= 8 else run
-            pend += list(vals[i:i + take])
+            pend = pend + [int(x) for x in vals[i:i + take]]
             i += take
     if pend:
-        g = (len(pend) + 7) // 8
-        out += uleb((g << 1) | 1) + _bitpack(pend + [0] * (g * 8 - len(pend)), width)
+        runs.append(["bp", pend])
+    return runs
+
+
+def hybrid_bytes(runs, width):
+    """rle-run = varint(count << 1) value in ceil(width/8) bytes LE; bit-packed-run = varint((groups << 1) | 1) groups*8
+    values bit-packed LSB first"""
+    out = bytearray()
+    vb = (width + 7) // 8
+    for r in runs:
+        if r[0] == "rle":
+            out += uleb(r[1] << 1) + int(r[2]).to_bytes(vb, "little")
+        else:
+            g = (len(r[1]) + 7) // 8
+            out += uleb((g << 1) | 1) + _bitpack(list(r[1]) + [0] * (g * 8 - len(r[1])), width)
     return bytes(out)
+
+
+def hybrid(vals, width, style="mixed"):
+    runs = hybrid_runs(vals, width, style)
+    b = hybrid_bytes(runs, width)
+    if LEVEL_LOG is not None and runs:
+        LEVEL_LOG.append((width, runs, b))
+    return b
 
 
 PTYPES = {  # name -> (parquet Type id, converted type or None)
@@ -209,8 +248,26 @@ def compress(b, codec):
     raise ValueError(codec)
 
 
+def page_stats(mode, de, max_def, d_nullel=None):
+    """Optional Statistics of a data page header.  Readers must decode the same rows whatever it says:
+    mode None      no statistics
+         'all'     null_count = every entry without a value (null / empty collections and null elements; parquet-mr)
+         'elems'   null_count = null ELEMENTS only (some writers)
+         'zero'    null_count = 0 whatever the page holds"""
+    if mode is None:
+        return None
+    pt = _thrift()
+    if mode == "all":
+        n = sum(1 for d in de if d != max_def)
+    elif mode == "elems":
+        n = sum(1 for d in de if d_nullel is not None and d == d_nullel and d != max_def)
+    else:
+        n = 0
+    return pt.Statistics(null_count=n)
+
+
 def data_page(rep, de, vals, max_rep, max_def, ptype, version, dictionary, level_style, num_rows, codec=None,
-              legacy_dict=False):
+              legacy_dict=False, stats=None, is_compressed=None, d_nullel=None):
     """One data page (header bytes + payload) for the entries rep/de and their non-null values.
     dictionary: None (PLAIN) or list of distinct values (indices RLE_DICTIONARY)."""
     pt = _thrift()
@@ -239,18 +296,22 @@ def data_page(rep, de, vals, max_rep, max_def, ptype, version, dictionary, level
         payload = compress(payload, codec)
         dph = pt.DataPageHeader(num_values=n, encoding=enc,
                                 definition_level_encoding=pt.Encoding.RLE,
-                                repetition_level_encoding=pt.Encoding.RLE, i32=1)
+                                repetition_level_encoding=pt.Encoding.RLE,
+                                statistics=page_stats(stats, de, max_def, d_nullel), i32=1)
         ph = pt.PageHeader(type=pt.PageType.DATA_PAGE, uncompressed_page_size=usize,
                            compressed_page_size=len(payload), data_page_header=dph, i32=1)
     else:
         # v2: the level streams are never compressed, only the values
+        # DataPageHeaderV2.is_compressed: absent means true; false = the values of THIS page are stored
+        # uncompressed although the chunk has a codec (pages of one chunk may differ)
         usize = len(rl) + len(dl) + len(vbytes)
-        payload = rl + dl + compress(vbytes, codec)
+        really = codec is not None and is_compressed is not False
+        payload = rl + dl + (compress(vbytes, codec) if really else vbytes)
         nnull = sum(1 for d in de if d != max_def)
         dph = pt.DataPageHeaderV2(num_values=n, num_nulls=nnull, num_rows=num_rows, encoding=enc,
                                   definition_levels_byte_length=len(dl),
                                   repetition_levels_byte_length=len(rl),
-                                  is_compressed=codec is not None, i32=1)
+                                  is_compressed=is_compressed, statistics=page_stats(stats, de, max_def, d_nullel), i32=1)
         ph = pt.PageHeader(type=pt.PageType.DATA_PAGE_V2, uncompressed_page_size=usize,
                            compressed_page_size=len(payload), data_page_header_v2=dph, i32=1)
     return bytes(ph.to_bytes()) + payload, usize + len(ph.to_bytes())
@@ -298,19 +359,21 @@ def leaf_columns(col):
         # an ordinary REQUIRED primitive column next to the nested ones (no levels at all)
         return [dict(path=[col["name"]], row_opt=False, elem_opt=False, ptype=col["ptype"], which="flat")]
     # a column "s.NAME" with col["struct"] = {"name": "s", "opt": bool} is the LIST / MAP group NAME inside the struct group s
-    st = col.get("struct")
-    top = [st["name"], col["name"].split(".", 1)[1]] if st else [col["name"]]
-    so = (bool(st["opt"]) if st else None)
+    sts = col_structs(col)
+    top = [x["name"] for x in sts] + [col["name"].split(".", len(sts))[-1]] if sts else [col["name"]]
+    so = ((bool(sts[0]["opt"]) if len(sts) == 1 else None) if sts else None)
+    sopts = [bool(x["opt"]) or bool(x.get("rep")) for x in sts] if sts else None
+    mrep = 1 + sum(1 for x in sts if x.get("rep")) + (1 if col.get("top_rep") else 0)
     if col["kind"] == "list":
         # LogicalTypes.md: the middle group "list" and the leaf "element" are the recommended names; older writers
         # use others (bag/array_element, array/item) and readers must not depend on them
         return [dict(path=top + [col.get("group_name", "list"), col.get("elem_name", "element")], row_opt=col["row_opt"],
-                     elem_opt=col["elem_opt"], ptype=col["ptype"], which="elem", struct_opt=so)]
+                     elem_opt=col["elem_opt"], ptype=col["ptype"], which="elem", struct_opt=so, struct_opts=sopts, max_rep=mrep)]
     g = col.get("group_name", "key_value")          # "map" in files of older writers
     return [dict(path=top + [g, "key"], row_opt=col["row_opt"], elem_opt=False,
-                 ptype=col["key_ptype"], which="key", struct_opt=so),
+                 ptype=col["key_ptype"], which="key", struct_opt=so, struct_opts=sopts, max_rep=mrep),
             dict(path=top + [g, "value"], row_opt=col["row_opt"],
-                 elem_opt=col["elem_opt"], ptype=col["ptype"], which="value", struct_opt=so)]
+                 elem_opt=col["elem_opt"], ptype=col["ptype"], which="value", struct_opt=so, struct_opts=sopts, max_rep=mrep)]
 
 
 def leaf_rows(col, leaf, rows):
@@ -318,7 +381,7 @@ def leaf_rows(col, leaf, rows):
     if col["kind"] in ("list", "flat"):
         return rows
     k = 0 if leaf["which"] == "key" else 1
-    return [r if (r is None or r == STRUCT_NULL) else [kv[k] for kv in r] for r in rows]
+    return [r if (r is None or is_struct_null(r)) else [kv[k] for kv in r] for r in rows]
 
 
 def schema_elements(cols):
@@ -332,11 +395,15 @@ def schema_elements(cols):
             out.append(pt.SchemaElement(name=c["name"], type=t, converted_type=ct, repetition_type=REQ, i32=1))
             continue
         top = OPT if c["row_opt"] else REQ
+        if c.get("top_rep"):
+            top = REP       # not a legal LIST/MAP (LogicalTypes.md); used by the refusal cases only
         gname = c["name"]
-        if c.get("struct"):
-            out.append(pt.SchemaElement(name=c["struct"]["name"], repetition_type=OPT if c["struct"]["opt"] else REQ,
+        sts = col_structs(c)
+        for st in sts:
+            out.append(pt.SchemaElement(name=st["name"], repetition_type=REP if st.get("rep") else (OPT if st["opt"] else REQ),
                                         num_children=1, i32=1))
-            gname = c["name"].split(".", 1)[1]
+        if sts:
+            gname = c["name"].split(".", len(sts))[-1]
         if c["kind"] == "list":
             t, ct = PTYPES[c["ptype"]]
             out.append(pt.SchemaElement(name=gname, repetition_type=top, num_children=1,
@@ -384,7 +451,7 @@ def write_file(path, cols, row_groups):
                     max_rep, max_def = 0, 0
                     rep, de, vals = [0] * len(rows), [0] * len(rows), list(rows)
                 else:
-                    max_rep = 1
+                    max_rep = leaf.get("max_rep", 1)
                     rep, de, vals = shred_leaf(lrows, leaf)
                     max_def = max_def_leaf(leaf)
                 pages = chunk_pages(rep, de, vals, max_def, lay["cuts"])
@@ -410,19 +477,27 @@ def write_file(path, cols, row_groups):
                     encs = [pt.Encoding.RLE, pt.Encoding.PLAIN,
                             pt.Encoding.PLAIN_DICTIONARY if lay.get("legacy_dict") else pt.Encoding.RLE_DICTIONARY]
                 data_off = len(body)
-                for (r, d, v, nr) in pages:
+                flags = lay.get("is_compressed") or []
+                pstats = lay.get("page_stats") or []
+                dne = None
+                if leaf["which"] != "flat" and leaf["elem_opt"]:
+                    dne = max_def - 1
+                for k, (r, d, v, nr) in enumerate(pages):
                     pg, us = data_page(r, d, v, max_rep, max_def, leaf["ptype"], lay["version"], dictionary,
-                                       lay.get("level_style", "mixed"), nr, codec, bool(lay.get("legacy_dict")))
+                                       lay.get("level_style", "mixed"), nr, codec, bool(lay.get("legacy_dict")),
+                                       stats=(pstats[k] if k < len(pstats) else None),
+                                       is_compressed=(flags[k] if k < len(flags) else None), d_nullel=dne)
                     body += pg
                     usize_total += us
                 size = len(body) - start
+                cstat = page_stats(lay.get("chunk_stats"), de, max_def, dne)
                 cmd = ThriftObject.from_fields(
-                    "ColumnMetaData", type=PTYPES[leaf["ptype"]][0], path_in_schema=list(leaf["path"]),
+                    "ColumnMetaData", type=PTYPES[leaf["ptype"]][0], path_in_schema=list(leaf["path"]), statistics=cstat,
                     encodings=encs, codec=CODECS[codec], num_values=len(rep), data_page_offset=data_off,
                     dictionary_page_offset=dict_off, total_uncompressed_size=usize_total,
                     total_compressed_size=size, i32list=[1, 4])
                 chunks.append(pt.ColumnChunk(file_offset=start, meta_data=cmd))
-                wrg.append(dict(col=c["name"], which=leaf["which"], row_opt=leaf["row_opt"], struct_opt=leaf.get("struct_opt"),
+                wrg.append(dict(col=c["name"], which=leaf["which"], row_opt=leaf["row_opt"], struct_opt=leaf.get("struct_opt"), struct_opts=leaf.get("struct_opts"),
                                 elem_opt=leaf["elem_opt"], max_def=max_def, rep=rep, de=de, vals=vals,
                                 pages=[(r, d, v) for (r, d, v, _) in pages], version=lay["version"],
                                 dictionary=bool(lay["dictionary"])))
